@@ -102,7 +102,8 @@ CHECKS = {
                 'state faithfully (they are opaque booleans in the abstraction).'
                 ' Round 6: FormatVersion stores and returns its components without a value-losing integer conversion (R-VER-WIDTH).'
                 ' Round 7: the Force flag reaches the backend for every mode (File::open forwarded clause).'
-                ' Round 8: LocID::getAttr answers "absent" only for an absent attribute (R-GETATTR).',
+                ' Round 8: LocID::getAttr answers "absent" only for an absent attribute (R-GETATTR).'
+                ' Round 10: outside the comparison-only fragment the gates are interpreted on a grid of concrete triples - refutation only, otherwise exit 2.',
     },
     'C09': {
         'technique': 'static analysis: decision-table extraction + abstract interpretation (boolean abstraction, all paths) of '
@@ -147,6 +148,7 @@ CHECKS = {
                 ' Added: R-NAMEFIRST and the R-NOCACHE clauses (a duplicate test that is fooled re-runs the creating constructor on an existing entity).'
                 ' Round 6: Identity carries the given name/id verbatim (R-IDENT); R-ATTRSEARCH.'
                 ' Round 8: R-EXACTCMP.'
+                ' Round 10: existence by link test before open-by-path (R-LINKFIRST: the name . cannot re-identify a container).'
                 ' The id given to a creating constructor reaches EntityHDF5 unchanged (R-ID-FWD).',
     },
     'C13': {
@@ -206,7 +208,8 @@ CHECKS = {
                 " Added: raw buffers handed to C APIs were sized, not only reserved (R-RAWBUF, guards removeAllLinks' name loop); no backend object caches a resolved entity (R-NOCACHE)."
                 ' Round 6: by-handle delete/remove overloads identify the entity by its id (R-BYHANDLE; found and fixed D24/D25); R-ATTRSEARCH.'
                 ' Round 7: R-NAMEBUF.'
-                ' Round 8: a DataArray loses its dimension descriptors, a section its own link, before it is unlinked (R-DEL-CYCLE, R-DEL-SELFLINK; guard D30/D31).',
+                ' Round 8: a DataArray loses its dimension descriptors, a section its own link, before it is unlinked (R-DEL-CYCLE, R-DEL-SELFLINK; guard D30/D31).'
+                ' Round 10: the non-releasing H5Object move assignment has no caller (R-HIDREL no-caller: a leaked container id keeps links to deleted targets alive).',
     },
     'C20': {
         'technique': 'static analysis: work-list discipline rule (insertion/removal ends resolved through helpers), guard-fact and '
@@ -218,7 +221,8 @@ CHECKS = {
                 'MetadataFilter(id()) resp. SourceFilter(id()), inherited properties shadow by name. Equality with a brute-force '
                 'traversal for all trees is not decided.'
                 ' Added: R-FILTER, results only through the work list, no early exit from the root loop, R-NOCACHE.'
-                ' Round 7: text lookups go through the name-first helpers (R-LOOKUP-VIA).',
+                ' Round 7: text lookups go through the name-first helpers (R-LOOKUP-VIA).'
+                ' Round 10: object names are read into a buffer of the queried length (R-NAMEBUF) - a truncated name drops the node from every enumeration.',
     },
     'C07': {
         'technique': 'static analysis: abstract interpretation with symbolic results on every abstract path (boolean abstraction of all '
